@@ -1,24 +1,25 @@
 import FluteModel.Props.C09
 import FluteModel.Lemmas.NoCodeDec
+import FluteModel.Lemmas.NoCodeSession
 /-
   C03  No silent corruption: 'complete' always means the sender's exact bytes.
 
-  Full statement aimed at (DESIGN §5 C03, `complete_implies_exact`): for every object content, every OTI and every history
-  whose packets are genuine symbols of that object (any sub-multiset, any order, any duplication, from any transfer of the same
-  content; No-Code concretely, other schemes under the codec contract): if the writer trace ends in `complete` then the
-  concatenated writes are exactly the object's bytes.
-  Proved here at full strength, for ALL histories of arbitrary (also non-genuine, also corrupted) packets, all environments:
-    * `never_both`            - an object instance is never told both `complete` and a failure;
-    * `md5_mismatch_errors`   - Content-MD5 announced + checking enabled + digest of the written bytes differs => no `complete`,
-                                and by Drop the writer has been told `error`/`interrupted` (no collision-freeness assumed: the
-                                statement is on digests);
-    * `complete_implies_exact_partial` - `complete` => exactly transfer-length bytes were written (cenc null) and the digest
-                                matched when checked.  MISSING for the full theorem: the invariant "every stored symbol at
-                                (SBN, ESI) is the genuine one, a completed block decodes to the genuine block, blocks are written
-                                strictly in SBN order" (R invariant (2),(3) of DESIGN §9) - its No-Code decoder part is
-                                `nocode_block_exact` below (proved); the byte-exactness itself is checked on every run by the
-                                oracle `C03:complete-wrong-bytes` of engine orecv (exhaustive permutations / sub-multisets of tiny
-                                sessions, seeded reorder/dup/loss, all five schemes).
+  `complete_implies_exact_nocode` - FULL STRENGTH, No-Code concretely: for every object `T` (transfer bytes, cenc null), every No-Code OTI
+      (0 < E, 0 < B < 2^32, |T| < 2^32: beyond that the `as u32` casts of push_to_block2 truncate), EVERY codec value, EVERY writer
+      environment, EVERY history made of genuine packets of that object - any sub-multiset, any order, any duplication, packets of any
+      transfer of the same content, with or without in-band FTI / CENC, FDT attachments with or without OTI, ESIs out of range - and every
+      drop point: if the writer was told `complete`, the bytes it accepted are exactly `T`.
+  `complete_implies_exact` - the same for ANY scheme (RS GF(2^8) both variants, RaptorQ, Raptor) for a session `S` satisfying `GSess.Laws`:
+      the sender facts (RFC 5052 partition, block k = its K symbols, `pre` = concatenation of the trimmed blocks; C07/C08) and the explicit
+      codec contract `CodecOK` (RS: reconstructing from genuine shards yields genuine shards; RaptorQ/Raptor: whatever is decoded from
+      genuine symbols is the block) - hypotheses, not axioms.  Invariant carried through push / attach_fdt / push_from_cache / write_blocks
+      (Lemmas/ObjRecvExact.lean): every decoder only ever saw genuine symbols, every written block is the genuine block, blocks are
+      written strictly in SBN order, the last is trimmed to bytes_left.
+  For ALL histories of arbitrary (also corrupted) packets:
+  `never_both`, `md5_mismatch_errors`, `complete_length_and_digest` (complete => exactly transfer-length bytes written (cenc null), digest
+      matched when checked), `nocode_block_exact` (block level).
+  NOT covered (named): cenc != null exactness (needs the decompressor contract `decompress (compress x) = x` threaded through
+  `decoder_read`; the length/digest theorem above covers every cenc); checked on every run by the oracle `C03:complete-wrong-bytes`.
 -/
 namespace Flute.Props.C03
 open Flute Flute.FecDec Flute.ObjRecv Flute.Spec Flute.Spec.WriterProto
@@ -61,14 +62,57 @@ theorem md5_mismatch_errors (P : Params) (toi maxSize : Nat) (ops : List Op) (st
   intro hc
   exact hne ((C09.complete_only_when_all_written P toi maxSize ops st' h hc).2 m hm hchk htl)
 
-/-- `complete` => exactly the announced number of bytes was written (cenc null) and the digest matched when checked.
-    (See the header for what is missing for byte-exactness.) -/
-theorem complete_implies_exact_partial (P : Params) (toi maxSize : Nat) (ops : List Op) (st' : St)
+/-- `complete` => exactly the announced number of bytes was written (cenc null) and the digest matched when checked,
+    for ALL histories (also corrupted packets) and every cenc. -/
+theorem complete_length_and_digest (P : Params) (toi maxSize : Nat) (ops : List Op) (st' : St)
     (h : run P (St.new toi maxSize) ops = .ok st') (hc : ¬ noComplete (drop st').out) :
     ((drop st').cenc = some .null → ∃ T, (drop st').tl = some T ∧ (drop st').written.length = T) ∧
     (∀ m, (drop st').md5 = some m → (drop st').md5Check = true → (drop st').tl ≠ some 0 →
         P.md5 (drop st').written = m) :=
   C09.complete_only_when_all_written P toi maxSize ops st' h hc
+
+/-- **complete ⇒ exact**, any scheme, under the sender facts and the codec contract (`GSess.Laws`): for every history of genuine
+    packets / FDT entries of the object (`GenOp`: any sub-multiset, order, duplication, transfer), every environment and drop point,
+    a writer that was told `complete` was handed exactly the object's transfer bytes `S.T`. -/
+theorem complete_implies_exact (P : Params) (S : GSess) (L : S.Laws P.codec) (toi maxSize : Nat) (ops : List Op) (st' : St)
+    (hops : ∀ op ∈ ops, GenOp S op) (h : run P (St.new toi maxSize) ops = .ok st')
+    (hc : ¬ noComplete (drop st').out) : (drop st').written = S.T := by
+  have hi := inv_run P _ ops (inv_new toi maxSize) h
+  have hj0 := jinv_run P _ ops (inv_new toi maxSize) (jinv_new P toi maxSize) h
+  have hg0 := ginv_run P S L _ ops (inv_new toi maxSize) (jinv_new P toi maxSize) (ginv_new S toi maxSize) hops h
+  have hj := jinv_drop st' hi hj0
+  have hg := ginv_drop st' hi hg0
+  have hid := (inv_drop st' hi).1
+  cases hw : (drop st').writer with
+  | none => exact absurd (hj.none_ hw).2 hc
+  | some ws =>
+    cases ws with
+    | idle => exact absurd hw hid.noIdle
+    | opened => exact absurd (hj.opened hw).nc hc
+    | error => exact absurd (hj.error hw) hc
+    | closed => exact hg.closed hw
+
+/-- **complete ⇒ exact, No-Code concretely** (no contract, every codec value): see the header. -/
+theorem complete_implies_exact_nocode (P : Params) (T : Bytes) (o : Oti) (hs : o.scheme = .noCode)
+    (he : 0 < o.e) (hb : 0 < o.b) (hb32 : o.b < 2 ^ 32) (hT : T.length < 2 ^ 32)
+    (toi maxSize : Nat) (ops : List Op) (st' : St)
+    (hops : ∀ op ∈ ops, GenOp (noCodeSession T o) op) (h : run P (St.new toi maxSize) ops = .ok st')
+    (hc : ¬ noComplete (drop st').out) : (drop st').written = T :=
+  complete_implies_exact P (noCodeSession T o) (noCodeSession_laws P.codec T o hs he hb hb32 hT) toi maxSize ops st' hops h hc
+
+/-- non-vacuity: a concrete genuine history (FDT entry, then the single symbol, received twice) meets the hypotheses of
+    `complete_implies_exact_nocode` and ends in `complete` -/
+example :
+    (∀ op ∈ [Op.attach 1 (some C09.e0), .push C09.p0, .push C09.p0],
+        GenOp (noCodeSession [1, 2, 3] ⟨.noCode, 4, 2, 0, none⟩) op) ∧
+    C09.traceAfterDrop (C09.P0 true) [.attach 1 (some C09.e0), .push C09.p0, .push C09.p0]
+      = some [.openOk, .write true, .complete] := by
+  refine ⟨?_, by decide⟩
+  intro op hop
+  simp at hop
+  rcases hop with rfl | rfl
+  · exact ⟨.inr rfl, rfl, rfl⟩
+  · exact ⟨.inl rfl, .inl rfl, ⟨0, 0, none⟩, rfl, fun _ => ⟨by decide, by decide, .inl rfl⟩⟩
 
 /-- Block level, No-Code concretely ("symbols placed by (SBN, ESI), first copy wins"): for EVERY sequence of genuine symbols of a
     source block (`G esi` = the sender's symbol with that ESI) - any subset, any order, any duplication, ESIs out of range
